@@ -216,6 +216,9 @@ def shape_pool(en="E1", sref="Leaf1", uref="U1", tdi="TdI32", tds="TdStr", tdl="
     P += [
         ("enum", ref(en), True), ("td-i32", ref(tdi), True), ("td-str", ref(tds), True), ("td-list", ref(tdl), True),
         ("struct", ref(sref), True), ("union", ref(uref), True),
+        ("td-enum", ref("TdEnum"), True), ("td-td-i32", ref("TdTdI32"), True), ("td-td-str", ref("TdTdStr"), True),
+        ("td-struct", ref("TdLeaf"), True), ("td-map", ref("TdMap"), False), ("list-td-enum", lst(ref("TdEnum")), True),
+        ("map-td-i32-td-enum", mp(ref("TdI32"), ref("TdEnum")), False),
         ("list-bool", lst(b("bool")), True), ("list-i32", lst(b("i32")), True), ("list-i64", lst(b("i64")), True),
         ("list-double", lst(b("double")), False), ("list-string", lst(b("string")), True), ("list-binary", lst(b("binary")), True),
         ("list-struct", lst(ref(sref)), True), ("list-enum", lst(ref(en)), True), ("list-list-i32", lst(lst(b("i32"))), True),
@@ -247,7 +250,7 @@ DEFAULTS = {
     "list-i32": [{"list": [lit_int(1), lit_int(2)]}], "set-i32": [{"list": [lit_int(3)]}],
     "map-string-i32": [{"map": [[lit_str("k"), lit_int(1)]]}],
     "list-string": [{"list": [lit_str("a"), lit_str("b")]}],
-    "td-i32": [lit_int(44)], "td-str": [lit_str("td")],
+    "td-i32": [lit_int(44)], "td-str": [lit_str("td")], "td-td-i32": [lit_int(-45)], "td-enum": [{"enum": "E1.C"}],
     "map-string-list": [{"map": [[lit_str("k"), {"list": [lit_int(1), lit_int(2)]}]]}],
 }
 
@@ -259,6 +262,10 @@ def base_defs():
         {"d": "typedef", "name": "TdI32", "ty": b("i32")},
         {"d": "typedef", "name": "TdStr", "ty": b("string")},
         {"d": "typedef", "name": "TdList", "ty": lst(b("string"))},
+        {"d": "typedef", "name": "TdEnum", "ty": ref("E1")},
+        {"d": "typedef", "name": "TdTdI32", "ty": ref("TdI32")},
+        {"d": "typedef", "name": "TdTdStr", "ty": ref("TdStr")},
+        {"d": "typedef", "name": "TdMap", "ty": mp(b("string"), ref("TdI32"))},
         {"d": "struct", "name": "Leaf1", "fields": [
             {"id": 1, "req": "required", "ty": b("i32"), "name": "a"},
             {"id": 2, "req": "optional", "ty": b("string"), "name": "s"},
